@@ -326,4 +326,19 @@ Project(st) == [cfg |-> st.cfg, hist |-> st.hist, nUpd |-> st.nUpd, Fm |-> st.Fm
                 pre |-> IF st.ops = 0 THEN st.log ELSE <<>>]   \* minerals built before the first call
 EmitAtEnd == ops = MaxOps => (LET tr == Trace IN PrintT(<<"BEH", ToJson([i \in 1..Len(tr) |-> Project(tr[i])])>>))
 FPathLen == \A m \in Minerals : Len(Fm[m]) = nUpd[m]
+\* ================================================================ refinement to the proved abstraction
+\* HistoryLaws.tla states the history / persistence laws over (hist, disk, err) alone and HistoryLawsProofs.tla
+\* proves them with TLAPS for unbounded minerals, contents and history lengths.  RefinesLaws says that every step
+\* of THIS machine is a step of that one (witnesses read off the post-state); TLC checks it over all reachable
+\* states of the bounded configurations, which is what ties the unbounded proof to this specification.
+AllKeys == Postfixes \cup {"none"}
+AbsDisk == [f \in Files |-> [k \in DOMAIN disk[f] |-> disk[f][k].hist]]
+Laws == INSTANCE HistoryLaws WITH KeySet <- AllKeys, Snap <- {}, hist <- hist, disk <- AbsDisk, err <- err
+RefinesLaws ==
+    [][\/ \E m \in Minerals : hist'[m] # <<>> /\ Laws!ACreate(m, hist'[m][1])
+       \/ Laws!AAdvance({m \in Minerals : hist'[m] # hist[m]},
+                        [m \in Minerals |-> IF hist'[m] = <<>> THEN <<>> ELSE Last(hist'[m])], err')
+       \/ Laws!ARefuse(err') \/ Laws!ANoop
+       \/ \E m \in Minerals, f \in Files, k \in AllKeys, keep \in BOOLEAN : Laws!ASave(m, f, k, keep)
+       \/ \E m \in Minerals, f \in Files, k \in AllKeys : Laws!ALoad(m, f, k)]_<<hist, AbsDisk, err>>
 =============================================================================
